@@ -12,7 +12,7 @@ import re
 from fractions import Fraction
 
 from core import enc_bool, enc_str
-from lib_frames import Batch, Env, Leaf, box_names, build, canon_measure, canon_render, render_segments, rule_title_plain, style_complete, title_plain
+from lib_frames import Batch, Env, Leaf, box_names, build, canon_measure, canon_render, render_segments, rule_title_plain, runs, style_complete, title_plain
 
 PROPERTY = "C08"
 
@@ -186,8 +186,51 @@ class World:
             self.ctx.check(text == "", "Console.render(width<1)", (repr(self.env), e, mw), "something was rendered in no space")
         return text
 
+    # ------------------------------------------------------------------ re-render histories (state kept on the instance)
+    def history(self, e, widths):
+        """Render ONE object at a sequence of widths: every render must satisfy the property's clause for its width and
+        equal what a freshly built equal object renders at that width (stale caches, texts mutated in place, …)."""
+        try:
+            obj = build(e, self.objs)
+        except Exception:
+            return
+        self.ctx.note("history:" + e[0])
+        self.in_history = True
+        try:
+            for i, mw in enumerate(widths):
+                inp = (repr(self.env), e, "widths rendered in turn on one object: %r" % (list(widths[: i + 1]),))
+                try:
+                    segs = render_segments(self.console, obj, mw, self.env)
+                except Exception as ex:
+                    self.ctx.check(False, "rerender:" + e[0], inp, f"render #{i + 1} of the same object at width {mw} raises {type(ex).__name__}")
+                    return
+                text = "".join(s.text for s in segs if not s.is_control)
+                # JUDGE: the statement's clauses for this width, on every render of the history
+                self.segs = segs
+                self.hist = inp
+                if mw >= 1:
+                    CHECKS[e[0]](self, e, mw, text)
+                else:
+                    self.ctx.check(text == "", "Console.render(width<1)", inp, "something was rendered in no space")
+                # OBSERVATION (no verdict): does this render differ from what a freshly built equal object renders?  The statement
+                # does not ask for it (a Rule given a Text title edits that Text in place, see the MANIFEST note).
+                try:
+                    fresh = render_segments(self.console, build(e, self.objs), mw, self.env)
+                except Exception:
+                    continue
+                if runs(segs, True) != runs(fresh, True):
+                    kind = e[0] + ("-text-title" if hasattr(e[1].get("title") if isinstance(e[1], dict) else None, "plain") else "")
+                    key = "rerender-differs-from-fresh:" + kind
+                    if key not in self.ctx.dist:
+                        ftext = "".join(s.text for s in fresh if not s.is_control)
+                        self.ctx.add_sample({"observation": key, "input": repr(inp)[:400], "same object": text[:120], "fresh object": ftext[:120]})
+                    self.ctx.note(key)
+        finally:
+            self.in_history = False
+            self.hist = None
+
     def fail(self, site, e, mw, what, finding=None):
-        self.ctx.check(False, site, (repr(self.env), e, mw), what, finding=finding)
+        self.ctx.check(False, site, getattr(self, "hist", None) or (repr(self.env), e, mw), what, finding=finding)
 
     def ok(self, site):
         self.ctx.check(True, site, None, "")
@@ -307,6 +350,15 @@ def check_panel(wd, e, mw, text):
         return wd.fail("Panel", e, mw, f"expanding panel is {width} wide, available {mw}")
     if expand and o.get("width") is not None and not title and width != min(mw, o["width"]):
         return wd.fail("Panel", e, mw, f"panel(width={o['width']}) is {width} wide, available {mw}")
+    if not expand and o.get("width") is None and "\t" not in title:
+        # exactly the requested border and padding cells: a fitting panel is its (padded) child's measured maximum — at least one
+        # cell, at least the title and its two fill characters — plus the two border cells, never more than is available
+        pad_ = unpack(o.get("padding", (0, 1)))
+        inner_ = ("PAD", list(pad_), True, child) if any(pad_) else child
+        want_w = min(mw, max(max(1, wd.child_max(inner_, mw - 2)), (cell_len(" " + title.replace("\n", " ") + " ") + 2) if title else 0) + 2)
+        if width != want_w:
+            return wd.fail("Panel", e, mw, f"fitting panel is {width} cells wide; its child measures {wd.child_max(inner_, mw - 2)}"
+                           + (f", its title {title!r} needs {cell_len(title.replace(chr(10), ' ')) + 4}" if title else "") + f": expected {want_w}")
     box = expected_box(wd, o)
     tl, tp, _, tr = box[0]
     ml, _, _, mr = box[3]
@@ -488,7 +540,8 @@ def check_rule(wd, e, mw, text):
     if "\n" in line:
         return wd.fail("Rule", e, mw, "more than one line")
     title = o.get("_title_plain", "").replace("\n", " ")
-    if "\t" in title or wd.env.justify not in (None, "default", "left"):
+    if "\t" in title or wd.env.justify not in (None, "default", "left") or (getattr(wd, "in_history", False) and hasattr(o.get("title"), "plain")):
+        # (… or a later render of a Rule that holds a Text title: the Rule has edited that Text in place — outside the statement)
         title_checks = False  # tabs are expanded / the line may be re-justified by the options: only the width is claimed
     else:
         title_checks = True
@@ -777,6 +830,55 @@ def rand_panel_opts(rng, names):
             "safe_box": rng.choice([None, None, True, False]), "style": rng.choice(STYLES), "border_style": rng.choice(STYLES)}
 
 
+def run_histories(wd, rng, names, nl, quick):
+    """the same object rendered at several widths in turn: narrow -> wide, wide -> narrow, the same twice, a random walk"""
+    from rich.text import Text
+
+    W = wd.env.width
+    seqs = [(3, W), (W, 3), (W, W), (5, W + 6, 8), (1, 2 * 20 + 3 if W + 8 >= 43 else W + 8, W)]
+    seqs = [tuple(min(max(w, 1), W + 8) for w in sq) for sq in seqs]
+
+    def L():
+        return ("L", rng.randrange(nl))
+
+    exprs = []
+    for pulse in (True, False):
+        for t in (0, Fraction(7, 4), Fraction(-33, 4), 100):
+            for w_ in (None, 40):
+                exprs.append(("PBAR", {"total": 10, "completed": rng.randint(0, 10), "width": w_, "pulse": pulse, "time": t}))
+    exprs.append(("BAR", {"size": 10, "begin": 2, "end": 7, "width": None}))
+    for title in ("", "title here", Text("a long title here"), Text("t\tab")):
+        for al in ("left", "center", "right"):
+            exprs.append(("RULET", {"title": title, "_title_plain": rule_title_plain(wd.console, title), "characters": rng.choice(["─", "あ", "ab"]),
+                                    "align": al, "end": "\n", "style": "rule.line"}))
+    for title in (None, "hello title", Text("a long title here"), Text("ti\ttle", justify="right")):
+        for ex in (True, False):
+            exprs.append(("PANEL", {"_tmode": "T", "title": title, "expand": ex, "title_align": rng.choice(["left", "center", "right"]),
+                                    "box": rng.choice(names), "style": rng.choice(STYLES), "padding": rng.choice([0, (0, 1), (1, 2)])}, L()))
+    exprs.append(("PANEL", {}, ("PBAR", {"total": 10, "completed": 3, "width": None, "pulse": True, "time": Fraction(7, 4)})))
+    for ex in (True, False):
+        exprs.append(("PAD", rng.choice([1, (0, 2), (1, 0, 0, 3)]), ex, L(), rng.choice(STYLES)))
+    for al in ("left", "center", "right"):
+        exprs.append(("ALIGN", {"align": al, "pad": rng.random() < 0.5, "width": rng.choice([None, 6]), "style": rng.choice([None] + STYLES)}, L()))
+    exprs.append(("CONSTRAIN", rng.choice([None, 5, 12]), L()))
+    exprs.append(("STYLED", L(), "bold"))
+    exprs.append(("VC", None, L()))
+    for _ in range(3):
+        exprs.append(("TREE", rand_tree(rng, 0, nl, [rng.randint(2, 7)])))
+        exprs.append(("COLS", dict(padding=rng.choice([(0, 1), 1]), width=rng.choice([None, None, 4]), equal=rng.random() < 0.3,
+                                   column_first=rng.random() < 0.5, right_to_left=rng.random() < 0.4, expand=rng.random() < 0.3,
+                                   align=rng.choice([None, "center"])), [L() for _ in range(rng.choice([2, 3, 5]))]))
+    # frames without a tabulated child can be rendered at any width: long jumps (a cache sized by the first render shows only then)
+    wide = [(3, 60), (10, 30, 80, 100), (60, 3), (25, 25), (1, 45, 7, 90)]
+    leafless = lambda x: x[0] in ("PBAR", "BAR", "RULET", "RULE") or (x[0] == "PANEL" and x[2][0] == "PBAR")
+    for e in exprs:
+        if leafless(e):
+            for sq in (wide if not quick or e[0] == "PBAR" else rng.sample(wide, 2)):
+                wd.history(e, sq)
+        for sq in (seqs if not quick else rng.sample(seqs, 2 if leafless(e) else 3)):
+            wd.history(e, sq)
+
+
 def run(ctx):
     from gen import boxes as genboxes
     from core import REPO
@@ -898,6 +1000,7 @@ def run(ctx):
                 except Exception as ex:  # the oracle itself must not hide a crash of rich
                     ctx.check(False, "harness-oracle:" + e[0], (repr(env), e, mw), f"{type(ex).__name__}: {ex}")
         wd.batch.flush()
+        run_histories(wd, rng, names, nl, quick)
         # F23: a bar does not end its line, so whatever follows continues on it
         from rich.console import RenderGroup
         from rich.progress_bar import ProgressBar
@@ -960,6 +1063,10 @@ MANIFEST = {
     "RSTRIP_COUNTS_CHARS = 0 (fix f5f2be9), COLUMNS_ZERO_COUNT = 0 (fix f7ecf83), LINES_PAD_UNSTYLED = 0 (fix 63e086e; finding panel-content-pad-unstyled), "
     "TITLE_AT_CONSOLE_WIDTH = 0 (fix 0e1edf7; findings panel-title-at-console-width and panel-title-ellipsis-in-zero-cells), "
     "RULE_NO_TITLE_END = 0 (fix a442cbd; finding rule-no-title-ignores-end). "
-    "Known finding, reported as KNOWN-FINDING lines (not a violation): progressbar-no-newline (F23; a ProgressBar emits no line end, pinned by tests/test_bar.py, not repaired).",
+    "Known finding, reported as KNOWN-FINDING lines (not a violation): progressbar-no-newline (F23; a ProgressBar emits no line end, pinned by tests/test_bar.py, not repaired). "
+    "Documented non-claim: a Rule given a Text title edits that Text in place (line feeds replaced, tabs expanded, truncated to the width), so a later, "
+    "wider render of the same Rule shows the truncated title; every render still fills its width exactly, which is all the statement asks "
+    "(re-render histories judge the statement's clauses on every render; `differs from a fresh object` is only counted: rerender-differs-from-fresh:*; "
+    "pending_fixes/C08-rule-title-copy.NOT-APPLIED-outside-statement.diff).",
     "design_ref": "DESIGN.md section 7 (C01, C07, C08, C09 block) and section 8 (F11, F23, F25)",
 }
